@@ -377,6 +377,12 @@ def rule_display_refresh(ctx: Ctx) -> RuleResult:
     return rr
 
 
+def _empty_guard(ctx: Ctx):
+    from . import c08
+
+    return c08.rule_empty_guard(ctx, "C09.8")
+
+
 def run(ctx: Ctx):
     p = ctx.p
     return [
@@ -387,6 +393,7 @@ def run(ctx: Ctx):
         rule_display_refresh(ctx),
         noop.run_noop(p, "C09.6", GEOM_MODULES, floor=30),
         posbound.run_posbound(p, "C09.7", GEOM_MODULES, floor=6),
+        _empty_guard(ctx),
     ]
 
 
